@@ -55,7 +55,9 @@ func (P *Program) verifyFunction(con *Contract) (res *FuncResult) {
 	fr.nopanic = !con.MayPanic
 	g.stack = []*ssa.Function{fn}
 	st := &State{cells: map[*Cell]string{}, heap: g.newRootHeap(), path: "true"}
-	g.assume("(>= " + st.heap.get(g, g.topKey()) + " 0)")
+	t0 := st.heap.get(g, g.topKey())
+	g.assume("(>= " + t0 + " 0)")
+	st.heap.base.top = t0
 	// parameters
 	for _, p := range fn.Params {
 		v := g.paramVal(st, p.Name(), p.Type())
@@ -138,6 +140,16 @@ func (P *Program) verifyFunction(con *Contract) (res *FuncResult) {
 			}
 			posts = append(posts, o)
 		}
+		for ci, ck := range con.Checks {
+			ctx := &specCtx{fr: fr, st: r.st, old: fr.entry, kind: ctxPost, pkg: con.Pkg, results: r.vals}
+			t := fr.evalBool(ck.Expr, ctx)
+			nm := fmt.Sprintf("check%d", ci+1)
+			if ck.Tag != "" {
+				nm = ck.Tag
+			}
+			o := g.oblige("post", nm+"@"+site, and(r.st.path, earlier), t, "check "+ck.Text+"  [return near "+r.pos+"]")
+			posts = append(posts, o)
+		}
 		g.groupObligations(g.fnKey+"#postgroup@"+site, posts)
 		if con.HasAssigns {
 			fr.frameObligation(r.st, site)
@@ -179,13 +191,17 @@ func (fr *Frame) frameFormula(st *State) string {
 	allowAll := map[string]bool{}
 	ctx := &specCtx{fr: fr, st: fr.entry, old: fr.entry, kind: ctxPre, pkg: con.Pkg}
 	for _, as := range con.Assigns {
-		switch x := as.Expr.(type) {
+		ae := as.Expr
+		if u, ok := ae.(*SUnary); ok && u.Op == "*" {
+			ae = u.X // *p: the whole object p points to
+		}
+		switch x := ae.(type) {
 		case *SIdent:
 			if _, ok := g.P.specs.Ghosts[x.Name]; ok {
 				allowAll["G:"+x.Name] = true
 				continue
 			}
-			sv := fr.evalSpec(as.Expr, ctx)
+			sv := fr.evalSpec(ae, ctx)
 			if pt, ok := sv.T.Underlying().(*types.Pointer); ok {
 				if stt, ok := pt.Elem().Underlying().(*types.Struct); ok {
 					for i := 0; i < stt.NumFields(); i++ {
@@ -327,7 +343,7 @@ func contractHasQuantifier(con *Contract) bool {
 		}
 		return false
 	}
-	if has(con.Requires) || has(con.Ensures) || has(con.Asserts) {
+	if has(con.Requires) || has(con.Ensures) || has(con.Asserts) || has(con.Checks) {
 		return true
 	}
 	for _, l := range con.Loops {
